@@ -12,7 +12,7 @@ import shutil
 import numpy as np
 
 from mc import gridmc, samplers, vrng
-from mc.core import Result
+from mc.core import Result, digest
 
 ID = "C12"
 TECHNIQUE = "exhaustive enumeration of the sampler option matrix x every random stream of a virtual RNG over a 3-letter field alphabet (bounded number of varying draws), differential oracle between entry points and a public-call recomputation"
@@ -293,6 +293,86 @@ def driver_job(cfg):
     return d
 
 
+# ----------------------------------------------------------------------------- the file route: options -> _prep_afqmc -> driver
+PREP_SEEDS = (0, 1, 7)
+
+
+def prep_job(cfg):
+    """The route a user of run_afqmc takes: options dictionary -> mpi_jax._prep_afqmc (files in a private scratch
+    directory) -> driver.afqmc, with the REAL jax.random.  For every seed letter (0 is a legal seed) and two
+    repetitions: every option handed in comes back unchanged, the two repetitions produce identical samples, and
+    they equal a run of driver.afqmc on hand-built objects with the same seed."""
+    import contextlib
+    import io
+
+    res = Result()
+    wt = cfg["wt"]
+    n, na, nb = (3, 1, 1) if wt == "restricted" else (3, 2, 1)
+    sysd = samplers.system(n, na, nb, 1, cfg["seed"], wt)
+    L = samplers.lib()
+    jnp = L["jnp"]
+    with contextlib.redirect_stdout(io.StringIO()):
+        from ad_afqmc import mpi_jax, pyscf_interface
+    nw, nsteps, n_blocks, n_ene, n_sr = 4, 2, 3, 1, 2
+    base = dict(dt=0.05, n_walkers=nw, n_prop_steps=nsteps, n_ene_blocks=n_ene, n_sr_blocks=n_sr, n_blocks=n_blocks,
+                n_ene_blocks_eql=1, n_sr_blocks_eql=1, n_eql=1, ad_mode=None, orbital_rotation=False, do_sr=True,
+                walker_type="rhf" if wt == "restricted" else "uhf", symmetry=False, save_walkers=False,
+                trial="rhf" if wt == "restricted" else "uhf", ene0=0.0, free_projection=False, n_batch=1)
+    cwd = os.getcwd()
+    tmp = os.path.join(os.path.dirname(os.path.dirname(os.path.dirname(os.path.abspath(__file__)))), "scratch", "c12_tmp", "q%d" % os.getpid())
+    os.makedirs(tmp, exist_ok=True)
+    runs = {}
+    try:
+        os.chdir(tmp)
+        h1 = 0.5 * (sysd["h1"][0] + sysd["h1"][1]) if wt == "restricted" else sysd["h1"][0]
+        if wt == "unrestricted" and not np.allclose(sysd["h1"][0], sysd["h1"][1]):
+            raise RuntimeError("harness: the file format carries one h1 only")
+        chol = np.asarray(sysd["chol"]).reshape(len(sysd["chol"]), n * n)
+        pyscf_interface.write_dqmc(h1, h1, chol, na + nb, n, sysd["h0"], ms=na - nb, filename="FCIDUMP_chol")
+        np.savez("mo_coeff.npz", mo_coeff=np.array([sysd["ca"], sysd["cb"]]))
+
+        def one(objs, options):
+            ham_data, ham, prop, trial, wave_data, samp, observable, MPI = objs
+            with contextlib.redirect_stdout(io.StringIO()):
+                e, err = L["driver"].afqmc(dict(ham_data), ham, prop, trial, dict(wave_data), samp, observable, options, MPI)
+            return np.loadtxt("samples_raw.dat").reshape(-1, 3)
+
+        for seed in PREP_SEEDS:
+            for rep in range(2):
+                given = dict(base, seed=seed)
+                with contextlib.redirect_stdout(io.StringIO()):
+                    ham_data, ham, prop, trial, wave_data, samp, observable, options, MPI = mpi_jax._prep_afqmc(dict(given))
+                res.add(states=1, transitions=1, evaluations=1, traces=1)
+                changed = {k: (given[k], options.get(k)) for k in given if not (k in options and options[k] == given[k])}
+                res.guard("prep_options_checked", len(given))
+                if changed:
+                    res.violation("prep/option-not-honoured:%s" % ",".join(sorted(changed)), dict(cfg, what="prep", run_seed=seed, rep=rep),
+                                  dict(changed={k: [repr(a), repr(b)] for k, (a, b) in changed.items()}))
+                raw = one((ham_data, ham, prop, trial, wave_data, samp, observable, MPI), options)
+                runs[(seed, rep)] = raw
+            # hand-built objects, the seed handed straight to the driver
+            B = samplers.build(sysd, wt, nw, dt=0.05, n_batch=1)
+            hd = {k: v for k, v in B["ham_data"].items() if k in ("h0", "h1", "chol", "ene0")}
+            hd["h1"] = jnp.asarray(np.array([h1, h1]))
+            samp2 = L["sampling"].sampler(nsteps, n_ene, n_sr, n_blocks)
+            runs[(seed, "direct")] = one((hd, B["ham"], B["prop"], B["trial"], B["wave_data"], samp2, None, L["config"].setup_comm()), dict(base, seed=seed))
+            res.add(states=1, transitions=1, evaluations=1, traces=1)
+            a, b, c = runs[(seed, 0)], runs[(seed, 1)], runs[(seed, "direct")]
+            res.guard("prep_runs_compared", 2)
+            if a.shape != b.shape or not np.array_equal(a, b):
+                res.violation("prep/%s/not-reproducible-for-given-seed" % wt, dict(cfg, what="prep", run_seed=seed), dict(first=a, second=b))
+            elif a.shape != c.shape or not np.allclose(a, c, rtol=0, atol=1e-12):
+                res.violation("prep/%s/differs-from-driver-with-same-seed" % wt, dict(cfg, what="prep", run_seed=seed), dict(prep=a, direct=c))
+            res.nontrivial((wt, seed, digest(a)))
+        # different seeds must give different samples (else the comparison above says nothing)
+        if not np.array_equal(runs[(PREP_SEEDS[0], 0)], runs[(PREP_SEEDS[1], 0)]):
+            res.guard("prep_seeds_distinguishable", 1)
+    finally:
+        os.chdir(cwd)
+        shutil.rmtree(tmp, ignore_errors=True)
+    return res.to_dict()
+
+
 class _Collector:
     def __init__(self):
         self.digests = []
@@ -304,7 +384,7 @@ def run(ctx):
                 "x n_batch {1,2} x entry point {plain, ad, ad_norot, ad_nosr, ad_nosr_norot, 2-RDM ad_1}; inside each cell EVERY stream of the "
                 "virtual random source: all words over field letters {0,+-1.7} on D=4 (5 thorough) draw positions spread over the blocks x "
                 "all words over comb-offset letters {0.2,0.8}; state = (cell, stream); non-trivial distinct = distinct block energies; "
-                "driver.afqmc itself over the option matrix ad_mode x orbital_rotation x do_sr x walker_type")
+                "driver.afqmc itself over the option matrix ad_mode x orbital_rotation x do_sr x walker_type; the file route options -> _prep_afqmc -> driver.afqmc with the real jax.random for seeds {0,1,7} x 2 repetitions + a direct driver run")
     ctx.assume("random numbers are owned by rebinding the `random` name of ad_afqmc.sampling/propagation/driver; draw positions beyond D carry a fixed non-trivial filler")
     ctx.assume("trial = SCF solution converged to 1e-12 by an independent NumPy SCF, so orbital relaxation at zero coupling is the identity")
     coll = _Collector()
@@ -320,6 +400,7 @@ def run(ctx):
     ctx._take = take
     ctx.pmap(job, configs(ctx.tier, ctx.seed), tasks_per_child=2)
     ctx.pmap(driver_job, driver_configs(ctx.tier, ctx.seed), tasks_per_child=2)
+    ctx.pmap(prep_job, [dict(kind="prep", wt=wt, seed=ctx.seed, tier=ctx.tier) for wt in ("restricted", "unrestricted")], tasks_per_child=1)
     ctx._take = orig_take
     # cross-process bit reproducibility
     main = {}
@@ -362,7 +443,8 @@ def run(ctx):
                     if a.shape == b.shape and np.abs(a - b).max() > 1e-5:
                         ctx.guard("driver_sr_groups_differ", 1)
     ctx.require_guard("non_initial_state_pairs", "non_initial_state_glue_moved_walkers", "cells_callable", "estimator_recomputed", "capped_samples", "streams_with_uneven_weights",
-                      "cross_process_digests_compared", "driver_cells_callable", "driver_pairs_compared", "driver_sr_groups_differ")
+                      "cross_process_digests_compared", "driver_cells_callable", "driver_pairs_compared", "driver_sr_groups_differ",
+                      "prep_options_checked", "prep_runs_compared", "prep_seeds_distinguishable")
 
 
 def replay(case):
@@ -370,6 +452,9 @@ def replay(case):
     if what in ("driver",):
         cfg = {k: v for k, v in case.items() if k not in ("what", "run_seed")}
         d = driver_job(cfg)
+        return (len(d["violations"]) > 0, {"violations": [(v["signature"], v["detail"]) for v in d["violations"]][:2]})
+    if what == "prep":
+        d = prep_job({k: v for k, v in case.items() if k not in ("what", "run_seed", "rep")})
         return (len(d["violations"]) > 0, {"violations": [(v["signature"], v["detail"]) for v in d["violations"]][:2]})
     if what in ("xproc", "driver-pair"):
         return (True, {"note": "cross-run comparison; re-run ./check C12"})
